@@ -70,3 +70,8 @@ package mapset
 //@   results s
 //@   ensures s != nil && !isnil(s.m) && len(s.m) == 0
 //@   ensures forall x T :: !has(s.m, x)
+
+//@ func FromItems
+//@   props C11
+//@   results s
+//@   ensures s != nil
